@@ -12,6 +12,7 @@
 from __future__ import annotations
 
 import itertools
+import random
 import logging
 from typing import Any
 
@@ -231,6 +232,7 @@ def run(ctx, rep) -> None:
     rep.sample(recs[len(recs) // 3]); rep.sample(recs[-1])
     for i, label in sorted(bad.items()):
         rep.classified(label if label.startswith('F') else '', f'{label}: {recs[i]}', payload=recs[i])
+    loop_stage(ctx, rep)
     from vf import handling as H
     from vf.props import _family
     scs = H.gen_scenarios(ctx.seed, 60 if ctx.quick else 1500, 'stealth')
@@ -263,3 +265,120 @@ def run(ctx, rep) -> None:
             rep.violation(f'{t["id"]}: the event loop stalled', payload=t)
         elif tv[t['id']]['verdict'] != 'accepted':
             rep.violation(f'{t["id"]}: a filtered timer is not invoked exactly while its criteria hold: {tv[t["id"]]["verdict"]}', payload=t)
+
+
+# ---------------------------------------------------------------------------------------------------------------------
+# The criteria in the closed loop: the real operator with several update handlers of DIFFERENT criteria on one object (a label value, a label's
+# absence, an old/new transition of a field outside the essence, none), one of which fails temporarily when it is first called; the object is
+# edited at rest (a label, the field) -- and sometimes once more while the failed handler sleeps, so that its criteria stop holding in
+# mid-cycle.  For every edit made at rest and every handler: "was it invoked before the next edit" is one more record of the kind judged above
+# (Filters!Matches on the declaration and the old / new state): exactly the handlers whose criteria hold.
+LOOP_DECLS = {'hA': {'kind': 'update', 'lab': 'eq', 'lab2': 'none', 'val': 'none', 'old': 'none', 'new': 'none', 'when': 'none'},
+              'hB': {'kind': 'update', 'lab': 'none', 'lab2': 'none', 'val': 'none', 'old': 'none', 'new': 'none', 'when': 'none'},
+              'hC': {'kind': 'update', 'lab': 'none', 'lab2': 'none', 'val': 'none', 'old': 'eq1', 'new': 'eq2', 'when': 'none'},
+              'hD': {'kind': 'update', 'lab': 'absent', 'lab2': 'none', 'val': 'none', 'old': 'none', 'new': 'none', 'when': 'none'}}
+
+
+def loop_case(sc: dict[str, Any]) -> dict[str, Any]:
+    import kopf
+    from sim.opsim import GROUP, PLURAL, VERSION, Sim, Stall
+    sim = Sim(wall_budget=20)
+    sim.world.max_steps = 400_000
+    try:
+        reg = sim.registry()
+        calls: list[tuple[float, str]] = []
+        failed = {'hA': 0}
+
+        def mk(hid: str):
+            async def fn(**_: Any) -> None:
+                calls.append((sim.now, hid))
+                if hid == 'hA' and sc.get('afails') and failed['hA'] < sc['afails']:
+                    failed['hA'] += 1
+                    raise kopf.TemporaryError('scripted', delay=sc.get('adelay', 6))
+            fn.__name__ = fn.__qualname__ = hid
+            return fn
+        kopf.on.update(GROUP, VERSION, PLURAL, registry=reg, id='hA', labels={'a': 'x'})(mk('hA'))
+        kopf.on.update(GROUP, VERSION, PLURAL, registry=reg, id='hB')(mk('hB'))
+        kopf.on.update(GROUP, VERSION, PLURAL, registry=reg, id='hC', field='status.f', old=1, new=2)(mk('hC'))
+        kopf.on.update(GROUP, VERSION, PLURAL, registry=reg, id='hD', labels={'a': kopf.ABSENT})(mk('hD'))
+        op = sim.operator('op1', reg, sim.settings())
+        cur = {'la': sc['la0'], 'f': sc['f0']}
+        FV = {1: 1, 2: 2, 3: False}
+
+        def apply(o: dict[str, Any]) -> None:
+            labs = o['metadata'].setdefault('labels', {})
+            if cur['la'] == '-': labs.pop('a', None)
+            else: labs['a'] = cur['la']
+            st = o.setdefault('status', {})
+            if cur['f']: st['f'] = FV[cur['f']]
+            else: st.pop('f', None)
+        sim.world.at(1, lambda: sim.create('o1', {'x': 1}, labels=({'a': cur['la']} if cur['la'] != '-' else None),
+                                           **({'status': {'f': FV[cur['f']]}} if cur['f'] else {})), 1)
+        marks: list[dict[str, Any]] = []
+
+        def edit(what: str, val: Any, rest: bool) -> None:
+            old = dict(cur)
+            cur['la' if what == 'la' else 'f'] = val
+            sim.edit('o1', apply)
+            marks.append({'t': sim.now, 'rest': rest, 'old': old, 'new': dict(cur)})
+        for (t, what, val, rest) in sc['edits']:
+            sim.world.at(t, (lambda what=what, val=val, rest=rest: edit(what, val, rest)), 1)
+        stall = False
+        try:
+            sim.run(sc['end'])
+            op.finish()
+        except Stall:
+            stall = True
+        recs = []
+        for k, m in enumerate(marks):
+            if not m['rest']:
+                continue
+            t1 = marks[k + 1]['t'] if k + 1 < len(marks) else sc['end']
+            for hid, decl in LOOP_DECLS.items():
+                recs.append({'kind': 'match', 'decl': decl, 'state': {'reason': 'update', 'la': m['new']['la'], 'lb': '-', 'fo': m['old']['f'], 'fn': m['new']['f']},
+                             'invoked': any(hh == hid and m['t'] <= tt < t1 for tt, hh in calls), 'loop': sc['id'], 'edit': k, 'handler': hid})
+        return {'id': sc['id'], 'records': recs, 'stall': stall, 'scenario': sc, 'calls': calls}
+    finally:
+        sim.close()
+
+
+def loop_scenarios(seed: int, n: int) -> list[dict[str, Any]]:
+    rnd = random.Random(f'c15-loop-{seed}')
+    out = [{'id': 'loop-crafted-0', 'la0': 'x', 'f0': 1, 'afails': 1, 'adelay': 6,
+            'edits': [(10, 'f', 2, True), (13, 'la', 'y', False), (40, 'f', 3, True), (70, 'la', '-', True), (100, 'f', 1, True), (130, 'f', 2, True)], 'end': 160}]
+    for i in range(n):
+        la, f = rnd.choice(['x', 'x', 'y', '-']), rnd.choice([0, 1, 2])
+        edits: list[tuple] = []; t = 10
+        cla, cf = la, f
+        for _ in range(rnd.randint(3, 7)):
+            before = cla
+            if rnd.random() < 0.5:
+                cla = rnd.choice([v for v in ('x', 'y', '-') if v != cla]); edits.append((t, 'la', cla, True))
+            else:
+                cf = rnd.choice([v for v in (0, 1, 2, 3) if v != cf]); edits.append((t, 'f', cf, True))
+            if rnd.random() < 0.4:      # once more while a failed handler may be asleep: its criteria stop (or start) holding in mid-cycle
+                t += rnd.choice([1, 3, 5])      # (never back to the label of the last-handled state: A -> B -> A in mid-cycle is the known family F20 of C03)
+                cla = rnd.choice([v for v in ('x', 'y', '-') if v != cla and (v != before or cla == before)]); edits.append((t, 'la', cla, False))
+            t += 30
+        out.append({'id': f'loop-{seed}-{i}', 'la0': la, 'f0': f, 'afails': rnd.choice([0, 1, 1, 2]), 'adelay': rnd.choice([2, 6, 10]), 'edits': edits, 'end': t + 10})
+    return out
+
+
+def loop_stage(ctx, rep) -> None:
+    from concurrent.futures import ProcessPoolExecutor
+    scs = loop_scenarios(ctx.seed, 40 if ctx.quick else 800)
+    with ProcessPoolExecutor(16) as ex:
+        runs = list(ex.map(loop_case, scs, chunksize=2))
+    recs = [r for run_ in runs for r in run_['records']]
+    bad = records.judge('Rec_Filters', [{k: v for k, v in r.items() if k in ('kind', 'decl', 'state', 'invoked')} for r in recs], rep=rep, shard=25000, name='Rec_Filters[loop]')
+    rep.evaluations += len(recs); rep.traces += len(runs)
+    for run_ in runs:
+        if run_['stall']:
+            rep.violation(f'{run_["id"]}: the event loop stalled', payload=run_['scenario'])
+        if any(not e[3] for e in run_['scenario']['edits']):
+            rep.nontrivial([run_['scenario']['edits'], [(r['handler'], r['edit'], r['invoked']) for r in run_['records']]])
+    for i, label in sorted(bad.items()):
+        r = recs[i]
+        rep.classified(label if label.startswith('F') else '', f'{label}: {r["loop"]}: after the edit #{r["edit"]} made at rest ({r["state"]}) the handler {r["handler"]} '
+                       f'was {"" if r["invoked"] else "not "}invoked', payload=r)
+    rep.extra['criteria_loop'] = {'runs': len(runs), 'records': len(recs)}
